@@ -974,7 +974,12 @@ func cdChildMain() {
 			os.Exit(3)
 		}
 		runtime.ReadMemStats(&m0)
-		obs, _ := cdOpDe(parts[0], data)
+		var obs Obs
+		if strings.HasPrefix(parts[0], "odec:") {
+			obs = cdOpOdec(strings.TrimPrefix(parts[0], "odec:"), data)
+		} else {
+			obs, _ = cdOpDe(parts[0], data)
+		}
 		runtime.ReadMemStats(&m1)
 		fmt.Fprintf(out, "%d %d %d\n", obs[0], obs[1], m1.TotalAlloc-m0.TotalAlloc)
 	}
@@ -1110,15 +1115,23 @@ func runCodecHostile(c *Case) ([]Obs, any) {
 	extra := []any{}
 	for _, raw := range c.Ops {
 		op := decodeOp(raw)
-		if op.Name != "de" {
+		name := op.Str(0)
+		switch op.Name {
+		case "de":
+			cdLookup(name)
+		case "odec": // the opaque (dependency) decoder alone, in the child: it may allocate without bound
+			if _, ok := cdOdecTypes[name]; !ok {
+				panic(harnessErr("codec_hostile: unknown opaque decoder " + name))
+			}
+			name = "odec:" + name
+		default:
 			panic(harnessErr("codec_hostile: unknown op " + op.Name))
 		}
-		cdLookup(op.Str(0))
 		cdHexArg(op, 1)
 		if child == nil {
 			child = cdStartChild(aslimit)
 		}
-		obs, alive := child.ask(op.Str(0), op.Str(1), timeout)
+		obs, alive := child.ask(name, op.Str(1), timeout)
 		var ex any
 		if !alive {
 			ex = child.stop()
